@@ -143,7 +143,7 @@ class Shrinker(object):
                     if not v:
                         break
                     best, last, pts = cand, v, half
-            elif op["op"] == "new" and op.get("kw", {}).get("d"):
+            elif op["op"] == "new" and op.get("kw", {}).get("d") and not op.get("expect"):
                 cand = copy.deepcopy(best)
                 cand["ops"][i]["kw"] = {"d": []}
                 v = self.fails(cand)
